@@ -43,6 +43,7 @@ type World struct {
 	Sizes  types.Sizes
 	AllFns map[*ssa.Function]bool
 	NFuncs int // source functions of the module
+	NInlined int // calls to trivial same-package helpers dissolved before SSA construction
 	pure   map[*ssa.Function]bool
 }
 
@@ -113,8 +114,13 @@ func Load(dir string, cfg Config, patterns ...string) (*World, error) {
 		}
 		return nil, fmt.Errorf("load/type errors in %s (%s):\n  %s", dir, cfg, strings.Join(errs, "\n  "))
 	}
+	nInlined := 0
+	if os.Getenv("LOWCHECK_NOINLINE") == "" {
+		nInlined = inlineTrivialHelpers(pkgs, inModuleFunc(pkgs))
+		dbgTime(fmt.Sprintf("inlined %d helper calls", nInlined))
+	}
 	prog, spkgs := ssautil.AllPackages(pkgs, ssa.InstantiateGenerics)
-	w := &World{Cfg: cfg, Dir: dir, Fset: prog.Fset, Pkgs: pkgs, Prog: prog, SSA: map[string]*ssa.Package{}}
+	w := &World{Cfg: cfg, Dir: dir, Fset: prog.Fset, Pkgs: pkgs, Prog: prog, SSA: map[string]*ssa.Package{}, NInlined: nInlined}
 	for i, p := range pkgs {
 		if spkgs[i] != nil {
 			w.SSA[p.PkgPath] = spkgs[i]
